@@ -20,7 +20,9 @@ import (
 	"k8s.io/apimachinery/pkg/watch"
 	dynamicfake "k8s.io/client-go/dynamic/fake"
 	clienttesting "k8s.io/client-go/testing"
+	"sigs.k8s.io/cli-utils/pkg/kstatus/polling/engine"
 	"sigs.k8s.io/cli-utils/pkg/kstatus/polling/event"
+	"sigs.k8s.io/cli-utils/pkg/kstatus/polling/statusreaders"
 	"sigs.k8s.io/cli-utils/pkg/kstatus/status"
 	"sigs.k8s.io/cli-utils/pkg/kstatus/watcher"
 	"sigs.k8s.io/cli-utils/pkg/object"
@@ -88,6 +90,28 @@ func (o oid) String() string {
 // payload variants: what the status rules look at
 const nVariants = 6
 
+// variantSlow: like variant 0, but the status computation of this version blocks
+// until its context is cancelled and then returns the context error (what the
+// built-in readers do when a cluster lookup is interrupted)
+const variantSlow = 6
+const slowAnnotation = "verif.c16/slow-status-read"
+
+// slowStatusReader wraps the default reader; see variantSlow.
+type slowStatusReader struct {
+	engine.StatusReader
+	act *int64
+}
+
+func (r *slowStatusReader) ReadStatusForObject(ctx context.Context, reader engine.ClusterReader, obj *unstructured.Unstructured) (*event.ResourceStatus, error) {
+	if obj.GetAnnotations()[slowAnnotation] == "true" {
+		atomic.AddInt64(r.act, 1)
+		<-ctx.Done()
+		atomic.AddInt64(r.act, 1)
+		return nil, ctx.Err()
+	}
+	return r.StatusReader.ReadStatusForObject(ctx, reader, obj)
+}
+
 func buildObject(o oid, variant int) *unstructured.Unstructured {
 	u := &unstructured.Unstructured{Object: map[string]interface{}{}}
 	u.SetGroupVersionKind(kinds[o.gk].gvk)
@@ -96,6 +120,9 @@ func buildObject(o oid, variant int) *unstructured.Unstructured {
 		u.SetNamespace(nsName(o.ns))
 	}
 	u.SetGeneration(1)
+	if variant == variantSlow {
+		u.SetAnnotations(map[string]string{slowAnnotation: "true"})
+	}
 	cond := func(t, s string) {
 		_ = unstructured.SetNestedSlice(u.Object, []interface{}{
 			map[string]interface{}{"type": t, "status": s, "reason": "r", "message": "m"},
@@ -161,7 +188,7 @@ func payloadTerm(o oid, variant int) string {
 			def = fmt.Sprintf("(Some %d)", kWidget)
 		}
 	}
-	return fmt.Sprintf("(mkPayload %s %s)", st, def)
+	return fmt.Sprintf("(mkPayload %s %s %s)", st, def, emit.Bool(variant == variantSlow))
 }
 
 // ---- RESTMapper with a resettable cache -------------------------------------------
@@ -242,7 +269,7 @@ var _ meta.ResettableRESTMapper = &dynMapper{}
 // ---- scripts -------------------------------------------------------------------------
 
 type rstep struct {
-	kind    string // add | update | delete | cancel
+	kind    string // add | update | delete | cancel | forbid (LIST of id.gk becomes Forbidden) | fail (a fatal error is due: wait for it)
 	id      oid
 	variant int
 }
@@ -266,12 +293,13 @@ type revent struct {
 }
 
 type robs struct {
-	events   []revent
-	closed   bool
-	synced   bool
-	panicMsg string
-	unknown  int // update events for ids outside the universe
-	marks    []int // number of events received when each step began
+	events     []revent
+	closed     bool
+	synced     bool
+	panicMsg   string
+	unknown    int   // update events for ids outside the universe
+	selfClosed bool  // channel closed before the harness cancelled
+	marks      []int // number of events received when each step began
 }
 
 func idOf(m object.ObjMetadata) (oid, bool) {
@@ -332,10 +360,17 @@ func runReporterScript(sc *rscript) (obs *robs) {
 	}
 	client := dynamicfake.NewSimpleDynamicClientWithCustomListKinds(k8sruntime.NewScheme(), listKinds)
 	var act int64
+	var forbidMu sync.Mutex
+	forbid := map[int]bool{}
+	for k, on := range sc.forbid {
+		forbid[k] = on
+	}
 	client.PrependReactor("*", "*", func(a clienttesting.Action) (bool, k8sruntime.Object, error) {
 		atomic.AddInt64(&act, 1)
 		if a.GetVerb() == "list" {
-			for k, on := range sc.forbid {
+			forbidMu.Lock()
+			defer forbidMu.Unlock()
+			for k, on := range forbid {
 				if on && kinds[k].resource == a.GetResource().Resource {
 					gr := a.GetResource().GroupResource()
 					return true, nil, apierrors.NewForbidden(gr, "", fmt.Errorf("not allowed"))
@@ -377,6 +412,7 @@ func runReporterScript(sc *rscript) (obs *robs) {
 	ctx, cancel := context.WithCancel(context.Background())
 	defer cancel()
 	w := watcher.NewDefaultStatusWatcher(client, mapper)
+	w.StatusReader = &slowStatusReader{StatusReader: statusreaders.NewDefaultStatusReader(mapper), act: &act}
 	ch := w.Watch(ctx, ids, watcher.Options{RESTScopeStrategy: strategy})
 
 	var mu sync.Mutex
@@ -432,10 +468,30 @@ func runReporterScript(sc *rscript) (obs *robs) {
 	waitQuiet(&act, 40*time.Millisecond, 3*time.Second)
 
 	cancelled := false
+	expectFail, gaveUp := false, false
+	for _, on := range sc.forbid {
+		expectFail = expectFail || on
+	}
 	for _, s := range sc.steps {
+		if s.kind == "forbid" {
+			forbidMu.Lock()
+			forbid[s.id.gk] = true
+			forbidMu.Unlock()
+			continue
+		}
 		mu.Lock()
 		obs.marks = append(obs.marks, len(obs.events))
 		mu.Unlock()
+		if s.kind == "fail" {
+			// a fatal error is due: the watcher must report it and stop by itself
+			expectFail = true
+			select {
+			case <-closedCh:
+			case <-time.After(5 * time.Second):
+				gaveUp = true
+			}
+			continue
+		}
 		if s.kind == "cancel" {
 			cancel()
 			cancelled = true
@@ -483,6 +539,17 @@ func runReporterScript(sc *rscript) (obs *robs) {
 		}
 		waitQuiet(&act, quiet, 3*time.Second)
 	}
+	if expectFail {
+		wait := 5 * time.Second
+		if gaveUp {
+			wait = 10 * time.Millisecond
+		}
+		select {
+		case <-closedCh:
+			obs.selfClosed = true
+		case <-time.After(wait):
+		}
+	}
 	cancel()
 	select {
 	case <-closedCh:
@@ -524,6 +591,26 @@ func reporterCorpus() []*rscript {
 		l = append(l, &rscript{label: "all-forbidden", root: round%2 == 0,
 			watched: []oid{cm(1, 1), sec(1, 1), {5, 0, 1}, cm(2, 1), sec(2, 2), ns1},
 			forbid:  map[int]bool{kNS: true, 2: true, 3: true, 5: true}})
+	}
+	// a benign context error first (status read cancelled because its watch is
+	// stopped by a Namespace / CRD deletion), then a genuine fatal error when the
+	// watch is restarted and its LIST is Forbidden: exactly one error event, closes
+	for rep := 0; rep < 3; rep++ {
+		l = append(l,
+			&rscript{label: "benign-then-fatal:namespace", root: false, watched: []oid{ns1, sec(1, 1), cm(2, 1)},
+				pre: []preObj{{ns1, 0}, {sec(1, 1), 0}},
+				steps: []rstep{{"update", sec(1, 1), variantSlow}, {"delete", ns1, 0}, {"delete", sec(1, 1), 0}, {"add", cm(2, 1), 0},
+					{"forbid", sec(1, 1), 0}, {"add", ns1, 0}, {"fail", oid{}, 0}, {"update", cm(2, 1), 1}}},
+			&rscript{label: "benign-then-fatal:namespace-root", root: true, watched: []oid{ns1, sec(1, 1), cm(2, 1)},
+				pre:   []preObj{{ns1, 0}, {sec(1, 1), 0}},
+				steps: []rstep{{"add", cm(2, 1), 0}, {"delete", sec(1, 1), 0}, {"delete", ns1, 0}, {"forbid", sec(1, 1), 0}, {"add", ns1, 0}}},
+		)
+		for _, root := range []bool{true, false} {
+			l = append(l, &rscript{label: "benign-then-fatal:crd", root: root, watched: []oid{crd, wid(1, 1), cm(2, 1)},
+				pre: []preObj{{crd, 0}, {wid(1, 1), 0}},
+				steps: []rstep{{"update", wid(1, 1), variantSlow}, {"delete", crd, 0}, {"delete", wid(1, 1), 0}, {"add", cm(2, 1), 0},
+					{"forbid", wid(1, 1), 0}, {"add", crd, 0}, {"fail", oid{}, 0}, {"update", cm(2, 1), 1}}})
+		}
 	}
 	for _, root := range []bool{true, false} {
 		l = append(l,
@@ -697,6 +784,64 @@ func genReporterScript(r *rand.Rand) *rscript {
 	return sc
 }
 
+// genBenignThenFatal: k >= 1 status reads cancelled by Namespace (namespace scope)
+// or CRD (both scopes) deletions while the watcher keeps running, unrelated
+// mutations in between, then a restart whose LIST is Forbidden.
+func genBenignThenFatal(r *rand.Rand) *rscript {
+	root := r.Intn(2) == 0
+	viaCRD := root || r.Intn(2) == 0
+	ns1, crd := oid{kNS, 0, 1}, oid{kCRD, 0, 1}
+	var gate, obj oid // the object whose deletion stops the watch; the watched object
+	if viaCRD {
+		gate, obj = crd, oid{kWidget, 1 + r.Intn(2), 1 + r.Intn(2)}
+	} else {
+		gate, obj = ns1, oid{[]int{2, 3}[r.Intn(2)], 1, 1 + r.Intn(2)}
+	}
+	other := []oid{{5, 0, 1}, {3, 2, 1}, {2, 2, 2}}
+	sc := &rscript{label: "benign-then-fatal:generated", root: root, watched: []oid{gate, obj, other[0], other[1]}}
+	sc.pre = []preObj{{gate, 0}, {obj, r.Intn(nVariants)}}
+	exists := map[oid]bool{}
+	noise := func() {
+		for i := r.Intn(3); i > 0; i-- {
+			o := other[r.Intn(len(other))]
+			switch {
+			case !exists[o]:
+				sc.steps = append(sc.steps, rstep{"add", o, r.Intn(nVariants)})
+				exists[o] = true
+			case r.Intn(3) == 0:
+				sc.steps = append(sc.steps, rstep{"delete", o, 0})
+				exists[o] = false
+			default:
+				sc.steps = append(sc.steps, rstep{"update", o, r.Intn(nVariants)})
+			}
+		}
+	}
+	cycles := 1 + r.Intn(2)
+	for i := 0; i < cycles; i++ {
+		noise()
+		sc.steps = append(sc.steps, rstep{"update", obj, variantSlow}) // read in flight
+		noise2 := r.Intn(2) == 0
+		sc.steps = append(sc.steps, rstep{"delete", gate, 0}) // watch stopped, read cancelled
+		sc.steps = append(sc.steps, rstep{"delete", obj, 0})  // unobserved
+		if noise2 {
+			noise()
+		}
+		if i < cycles-1 {
+			// the watch comes back healthy, the object is re-created and reported
+			sc.steps = append(sc.steps, rstep{"add", gate, 0}, rstep{"add", obj, r.Intn(nVariants)})
+		}
+	}
+	sc.steps = append(sc.steps, rstep{"forbid", obj, 0}, rstep{"add", gate, 0}, rstep{"fail", oid{}, 0})
+	if r.Intn(2) == 0 { // after the stop: nothing is reported
+		if exists[other[0]] {
+			sc.steps = append(sc.steps, rstep{"update", other[0], 0})
+		} else {
+			sc.steps = append(sc.steps, rstep{"add", other[0], 0})
+		}
+	}
+	return sc
+}
+
 // ---- emission ----------------------------------------------------------------------------
 
 func (sc *rscript) caseTerm(o *robs) (string, string) {
@@ -741,6 +886,11 @@ func (sc *rscript) caseTerm(o *robs) (string, string) {
 		case "cancel":
 			steps = append(steps, "SCancel")
 			txt = append(txt, "cancel")
+		case "forbid":
+			txt = append(txt, "forbid-list "+kinds[s.id.gk].gvk.Kind)
+		case "fail":
+			steps = append(steps, "SFail")
+			txt = append(txt, "(fatal error due)")
 		case "add":
 			steps = append(steps, fmt.Sprintf("(SMut (MAdd %s %s))", s.id.term(), payloadTerm(s.id, s.variant)))
 			txt = append(txt, fmt.Sprintf("add %s v%d", s.id, s.variant))
@@ -780,11 +930,11 @@ func (sc *rscript) caseTerm(o *robs) (string, string) {
 		}
 	}
 	sort.Strings(ftxt)
-	term := fmt.Sprintf("(mkRCase (mkConfig %s %s %s) %s %s %s %s %d %s)", scope, emit.List(watched), emit.NatList(builtin),
-		emit.List(pre), emit.List(steps), emit.List(evs), emit.Bool(o.closed), o.unknown, emit.NatList(o.marks))
+	term := fmt.Sprintf("(mkRCase (mkConfig %s %s %s) %s %s %s %s %d %s %s)", scope, emit.List(watched), emit.NatList(builtin),
+		emit.List(pre), emit.List(steps), emit.List(evs), emit.Bool(o.closed), o.unknown, emit.NatList(o.marks), emit.Bool(o.selfClosed))
 	text := fmt.Sprintf("watcher[%s] scope=%s watched=[%s] pre=[%s] forbidden=[%s] steps=[%s] -> events=[%s] closed=%v",
 		sc.label, strings.TrimPrefix(scope, "Scope"), strings.Join(wtxt, ","), strings.Join(ptxt, ","), strings.Join(ftxt, ","),
-		strings.Join(txt, "; "), strings.Join(etxt, " "), o.closed)
+		strings.Join(txt, "; "), strings.Join(etxt, " "), fmt.Sprintf("%v self-closed=%v", o.closed, o.selfClosed))
 	return term, text
 }
 
@@ -815,6 +965,9 @@ func runReporter(r *rand.Rand, tier, outDir string, sum *emit.Summary) error {
 	scripts := reporterCorpus()
 	for i := 0; i < nRandom; i++ {
 		scripts = append(scripts, genReporterScript(r))
+	}
+	for i := 0; i < nRandom/8; i++ {
+		scripts = append(scripts, genBenignThenFatal(r))
 	}
 	// warm-up (starts process-wide helper goroutines), then take the baseline
 	_ = runReporterScript(&rscript{label: "warmup", root: true, watched: []oid{{2, 1, 1}}})
